@@ -117,7 +117,10 @@ let () =
     if AmgBlock.coarse_inverse_ok sc scale a p r x then "OK" else "FAIL direct solver is not the inverse of s*R*A*P")
 
 (* ---------------------------------------------------------------- hierarchies built entirely inside the model
-   amgfull <coarsening> <ce> <dc> <ml> <policy> A <nscript> (dump | rebuild A')*
+   amgfull <coarsening> <b> <ce> <dc> <ml> <policy> A <nscript> (dump | rebuild A')*
+     <b> = 1: the coarsening class is used directly (scalar value type);
+     <b> > 1: coarsening::as_scalar<coarsening>::type on b x b block values, everything EXPANDED (A, ce in
+              expanded rows): the base operators go through AmgFull.as_scalar_prep b
      <policy> = aggregation:          <eps2> <block_size> <s = (float)(1/over_interp)>
                 smoothed_aggregation: <k> <eps2 of level 0..k-1> <block_size> <relax> <c23>
                 smoothed_aggr_emin:   <k> <eps2 of level 0..k-1> <block_size>
@@ -131,6 +134,8 @@ let show_ldescs (ls : Amg.ldesc list) = show_dump (AmgBlock.show_hier sc ls)
 let () =
   reg "amgfull" (fun t ->
     let kind = t_s t in
+    let b = t_i t in
+    let prep = if b <= 1 then (fun x -> Some x) else AmgFull.as_scalar_prep sc b in
     let ce = t_i t in let dc = t_i t <> 0 in let ml = t_i t in
     let pol = (match kind with
       | "aggregation" -> let e2 = t_q t in let bs = t_i t in let s = t_q t in Coarsen.PolAggregation (e2, bs, s)
@@ -146,7 +151,7 @@ let () =
     let n = List.length a.Crs.rows in
     let junk = (fun _ -> zeros n) and junkf = (fun _ -> []) in
     let cop = AmgFull.policy_cop sc pol in
-    let descs = ref (match AmgFull.amg_init_full sc ce dc ml 1 junk junkf pol a with
+    let descs = ref (match AmgFull.amg_init_full sc ce dc ml 1 junk junkf prep pol a with
         | AmgFull.FullOk ls -> ls
         | AmgFull.FullPrecond -> raise (Model_exc "runtime_error")
         | AmgFull.FullOob -> raise (Model_exc "MODEL-OOB")) in
